@@ -149,7 +149,7 @@ def run(chk):
         for name, files in c12.load_corpus(prop):
             for fmt in [fmtlib.DEFAULT_FMT] + axes:
                 one(files, fmt, "corpus:%s/%s" % (prop, name))
-    n = 1500 if thorough else 260
+    n = 7000 if thorough else 1400
     plan = [(CLEAN, 0.55), (CLEAN + ["non_ascii"], 0.1), (CLEAN + ["same_line"], 0.15), (CLEAN + ["lbrace_comment", "import_arg_comment"], 0.06),
             (CLEAN + ["multiline_comments"], 0.08), (["newline_gaps", "same_line", "long_labels"], 0.06)]
     for i in range(n):
@@ -168,7 +168,7 @@ def run(chk):
             opts.append(rng.choice(axes))
         for fmt in opts:
             one(files, fmt, "gen:%s" % "+".join(c for c in cls if c not in CLEAN))
-    rechunk_tie(ctx, rng, 2500 if thorough else 400, dist)
+    rechunk_tie(ctx, rng, 20000 if thorough else 3000, dist)
     ctx.stop()
     chk.cov["rule"] = ("corpus witnesses (C13 and C12) x every enumerated option axis value; seeded grammar-based projects (as for C12: whole statement "
                        "grammar, comments in every trivia position, long labels, empty blocks, statements sharing a line, multi-line block comments "
